@@ -9,9 +9,17 @@
 #include <nstd/Document/Xml.hpp>
 #undef private
 
+#include <nstd/Error.hpp>
+
+// where the dump functions write: stdout, or a memory stream while an answer is collected as a string
+static FILE* O = 0;
+
 static void hexs(const String& s)
 {
-  vh::puthex((const unsigned char*)(const char*)s, s.length());
+  const unsigned char* b = (const unsigned char*)(const char*)s;
+  size_t n = s.length();
+  if(n == 0) { fputs("-", O); return; }
+  for(size_t i = 0; i < n; ++i) fprintf(O, "%02x", b[i]);
 }
 
 static String unhexs(const char* tok)
@@ -29,24 +37,24 @@ static void dumpv(const Xml::Variant& v, bool pos)
   switch(v.getType())
   {
   case Xml::Variant::elementType: dump(v.toElement(), pos); break;
-  case Xml::Variant::textType: printf(" t "); hexs(v.toString()); break;
-  default: printf(" nul"); break;
+  case Xml::Variant::textType: fprintf(O, " t "); hexs(v.toString()); break;
+  default: fprintf(O, " nul"); break;
   }
 }
 
 static void dump(const Xml::Element& e, bool pos)
 {
-  printf(" (");
-  if(pos) printf(" %d %d", e.line, e.column);
-  printf(" "); hexs(e.type);
-  printf(" %llu", (unsigned long long)e.attributes.size());
+  fprintf(O, " (");
+  if(pos) fprintf(O, " %d %d", e.line, e.column);
+  fprintf(O, " "); hexs(e.type);
+  fprintf(O, " %llu", (unsigned long long)e.attributes.size());
   for(HashMap<String, String>::Iterator i = e.attributes.begin(), end = e.attributes.end(); i != end; ++i)
   {
-    printf(" "); hexs(i.key()); printf(" "); hexs(*i);
+    fprintf(O, " "); hexs(i.key()); fprintf(O, " "); hexs(*i);
   }
   for(List<Xml::Variant>::Iterator i = e.content.begin(), end = e.content.end(); i != end; ++i)
     dumpv(*i, pos);
-  printf(" )");
+  fprintf(O, " )");
 }
 
 // L-int: the reference count of every Variant, walking the content lists
@@ -56,39 +64,74 @@ static void dumprc(const Xml::Variant& v)
   {
   case Xml::Variant::elementType:
     {
-      printf(" (%llu", (unsigned long long)v.data->ref);
+      fprintf(O, " (%llu", (unsigned long long)v.data->ref);
       const Xml::Element& e = v.toElement();
       for(List<Xml::Variant>::Iterator i = e.content.begin(), end = e.content.end(); i != end; ++i)
         dumprc(*i);
-      printf(" )");
+      fprintf(O, " )");
     }
     break;
-  case Xml::Variant::textType: printf(" t%llu", (unsigned long long)v.data->ref); break;
-  default: printf(" nul"); break;
+  case Xml::Variant::textType: fprintf(O, " t%llu", (unsigned long long)v.data->ref); break;
+  default: fprintf(O, " nul"); break;
   }
 }
 
-// parse an exact-size heap copy (n bytes + terminator) so that ASan sees any read beyond it
-static void parseOut(const unsigned char* d, size_t n)
+// the answer of one parse call: "ok <dump>" or "err <line> <column> <message>"
+static void printResult(bool ok, const Xml::Parser& parser, const Xml::Element& element)
+{
+  if(ok)
+  {
+    fprintf(O, "ok");
+    dump(element, true);
+  }
+  else
+  {
+    fprintf(O, "err %d %d ", parser.getErrorLine(), parser.getErrorColumn());
+    hexs(parser.getErrorString());
+  }
+}
+
+static char* resultString(bool ok, const Xml::Parser& parser, const Xml::Element& element)
+{
+  char* buf = 0; size_t n = 0;
+  FILE* keep = O;
+  O = open_memstream(&buf, &n);
+  printResult(ok, parser, element);
+  fclose(O);
+  O = keep;
+  return buf;
+}
+
+// exact-size heap copy (n bytes + terminator) so that ASan sees any read beyond it
+static char* exactCopy(const unsigned char* d, size_t n)
 {
   char* text = (char*)malloc(n + 1);
   memcpy(text, d, n);
   text[n] = 0;
+  return text;
+}
+
+// a fresh Parser and a fresh Element
+static char* freshResult(const char* text, size_t n)
+{
+  Xml::Parser parser;
+  Xml::Element element;
+  String data;
+  data.attach(text, n);
+  bool ok = parser.parse(data, element);
+  return resultString(ok, parser, element);
+}
+
+static void parseOut(const unsigned char* d, size_t n)
+{
+  char* text = exactCopy(d, n);
   {
     Xml::Parser parser;
     Xml::Element element;
     String data;
     data.attach(text, n); // text[n] == 0: the conversion to const char* hands out `text` itself, no copy
-    if(parser.parse(data, element))
-    {
-      printf("ok");
-      dump(element, true);
-    }
-    else
-    {
-      printf("err %d %d ", parser.getErrorLine(), parser.getErrorColumn());
-      hexs(parser.getErrorString());
-    }
+    bool ok = parser.parse(data, element);
+    printResult(ok, parser, element);
   }
   free(text);
 }
@@ -148,6 +191,67 @@ static void op(long c, long, vh::Tok& t)
     else
       printf("err");
     printf("\n");
+  } else if(!strcmp(o, "parse2") && t.n >= 4) {
+    // one Parser object, two texts; flag 1: also one target Element for both calls.
+    // first section: 1 iff both answers are those of a fresh Parser with a fresh Element
+    bool shared = t.v[1][0] == '1';
+    Xml::Parser parser;
+    Xml::Element keep;
+    char* res[2]; bool same = true;
+    for(int k = 0; k < 2; ++k) {
+      size_t n; unsigned char* d = vh::unhex(t.v[2 + k], n);
+      char* text = exactCopy(d, n); free(d);
+      Xml::Element own;
+      Xml::Element& target = shared ? keep : own;
+      String data; data.attach(text, n);
+      bool ok = parser.parse(data, target);
+      res[k] = resultString(ok, parser, target);
+      char* ref = freshResult(text, n);
+      if(strcmp(ref, res[k])) same = false;
+      free(ref); free(text);
+    }
+    printf("%ld %d | %s | %s\n", c, same ? 1 : 0, res[0], res[1]);
+    free(res[0]); free(res[1]);
+  } else if(!strcmp(o, "pinto") && t.n >= 2) {
+    // parse <text> into an Element that holds the tree built so far; first section: 1 iff the answer is that of a fresh Element
+    size_t n; unsigned char* d = vh::unhex(t.v[1], n);
+    char* text = exactCopy(d, n); free(d);
+    Xml::Element target = current();
+    Xml::Parser parser;
+    String data; data.attach(text, n);
+    bool ok = parser.parse(data, target);
+    char* r = resultString(ok, parser, target);
+    char* ref = freshResult(text, n);
+    printf("%ld %d | %s\n", c, strcmp(ref, r) ? 0 : 1, r);
+    free(ref); free(r); free(text);
+  } else if(!strcmp(o, "rtinto")) {
+    // toString of the tree built so far, parsed into an Element that holds a copy of that tree
+    Xml::Element e = current();
+    String s = Xml::toString(e);
+    char* text = exactCopy((const unsigned char*)(const char*)s, s.length());
+    Xml::Element target = current();
+    Xml::Parser parser;
+    String data; data.attach(text, s.length());
+    bool ok = parser.parse(data, target);
+    printf("%ld rtinto ", c);
+    printResult(ok, parser, target);
+    printf("\n");
+    free(text);
+  } else if(!strcmp(o, "sparse") && t.n >= 3) {
+    // the static wrappers: c = Xml::parse(const char*), s = Xml::parse(const String&); failure text from Error::getErrorString()
+    size_t n; unsigned char* d = vh::unhex(t.v[2], n);
+    char* text = exactCopy(d, n); free(d);
+    {
+      Xml::Element element;
+      String data; data.attach(text, n);
+      Error::setErrorString(String("stale"));
+      bool ok = t.v[1][0] == 'c' ? Xml::parse((const char*)text, element) : Xml::parse(data, element);
+      printf("%ld ", c);
+      if(ok) { printf("ok"); dump(element, true); }
+      else { printf("serr "); hexs(Error::getErrorString()); }
+      printf("\n");
+    }
+    free(text);
   } else if(!strcmp(o, "open")) {
     if(depth < maxDepth) { Xml::Element* e = new Xml::Element; e->line = 0; e->column = 0; e->type = unhexs(t.v[1]); stack[depth++] = e; }
   } else if(!strcmp(o, "attr")) {
@@ -226,4 +330,4 @@ static void op(long c, long, vh::Tok& t)
   }
 }
 
-int main(int argc, char** argv) { return vh::run(argc, argv, begin, op, end); }
+int main(int argc, char** argv) { O = stdout; return vh::run(argc, argv, begin, op, end); }
